@@ -49,6 +49,25 @@ func c17Body(w *W) {
 		check("C17-nd-"+name, text, true)
 	})
 	c17Deserialized(w)
+	// every input of the C01 spaces (byte strings, token sequences, alignment / flush-edge /
+	// threshold probes, edge white space) that the parser ACCEPTS - whether or not the grammar
+	// allows it - must come with a well-formed tape: a text with an unclosed container that
+	// slips through must not leave zero offsets or a missing closing root behind
+	w.Note("accepted inputs of the C01 spaces (incl. texts the grammar rejects, should the parser accept one): tape format checked under one configuration per input")
+	sess := &parseSession{}
+	cfg := Cfg{hasAVX512, true}
+	forEachC01Input(w, func(in, probe []byte, harness string) {
+		w.cur.Set("C17-"+harness, cfg.String(), in)
+		pj, err, p := sess.parse(cfg, in, false)
+		w.res.Validated++
+		if p != "" || err != nil || pj == nil {
+			return
+		}
+		w.res.Evaluations++
+		if terr := tapeErr(pj, ref.TapeOpts{}); terr != nil {
+			w.Violate(Violation{Harness: "C17-" + harness, Fingerprint: "C17/format/accepted-input/" + shapeOf(probe), What: "accepted input whose tape violates the documented format: " + terr.Error(), Case: append([]byte(nil), in...), Config: cfg.String()})
+		}
+	})
 }
 
 func c17Replay(v *Violation) string {
@@ -105,7 +124,7 @@ func c17Deserialized(w *W) {
 	ts := c11Tapes(w)
 	var small []*serTape
 	for _, t := range ts {
-		if !t.big && !t.corrupt {
+		if !t.big && !t.corrupt && !t.aux {
 			small = append(small, t)
 		}
 	}
